@@ -188,7 +188,7 @@ make_generator = _make_gen      # make_generator(name, vendor, acl_text, ops) ->
 
 
 def run_old_new(device_model, generators, config_text=None, add_implicit=False, acl=True, exclusive=True,
-                hostname="dev1"):
+                hostname="dev1", tags=None):
     """Run the real `annet.gen._old_new_per_device` for one stub CLI device and return its `OldNewResult`
     (`.old`, `.new`, `.err`, `.acl_rules`, `.partial_results`, `.implicit_rules`, ...).
 
@@ -214,6 +214,7 @@ def run_old_new(device_model, generators, config_text=None, add_implicit=False, 
     dev = _Device(device_model)
     dev.hostname = hostname
     dev.fqdn = hostname + ".net"
+    dev.tags = list(tags or [])
     gens = []
     for g in generators:
         if isinstance(g, type):
